@@ -334,3 +334,22 @@ PROPS["C07"] = dict(
                   "z3 integers are mathematical: Python ints are unbounded, so this is exact"],
     explanation="scalar multiplication verified over the free abelian group on the base points: _naf returns the non-adjacent form (loop invariant over the digit list), _maybe_precompute builds the table of 2^j P long enough for scalars below 2*order (quantified loop invariant), _mul_precompute and the NAF loop of __mul__ keep `accumulator = processed digits times P` (nonlinear invariant other*2^j <= ... for the table walk), mul_add keeps `accumulator = REM(a)P + REM(b)Q` over the padded digit lists for every operand kind (Jacobian, affine, INFINITY, the same object) and every early exit; the result object denotes c*P + d*Q with c, d congruent to the multipliers modulo the declared order",
 )
+
+_CONC_Q = ["ecdsa.ellipticcurve.PointJacobi." + f + "@concurrent" for f in ("x", "y", "scale", "to_affine", "double", "__add__", "__neg__", "__eq__", "__getstate__",
+                                                                             "_maybe_precompute", "_mul_precompute", "__mul__", "__rmul__")]
+_CONC_T = ["ecdsa.ellipticcurve.PointJacobi.mul_add@concurrent"]
+PROPS["C18"] = dict(
+    level="other",
+    functions=_CONC_Q + _CONC_T,
+    lemmas=[],
+    bounded=[],
+    min_obligations=60,
+    trusted_base=["rely/guarantee soundness (Jones): if every operation's own stores satisfy the guarantee and its contract holds under any number of environment steps allowed by the rely, every interleaving of such operations satisfies the contracts; NOT mechanised",
+                  "attribute loads and stores (one bytecode each) are atomic in CPython; a tuple or list bound to an attribute is seen whole or not at all",
+                  "rely = guarantee: the stored triple is replaced only by the reduced triple (x, y, 1) of the same view, a triple with Z == 1 is never replaced; an empty table of a generator point is replaced only by a complete table of its view; a list stored into a shared field is never mutated afterwards; no other field of a shared point is written",
+                  "objects created by the running operation are thread-local until returned; VerifyingKey / SigningKey / Public_key objects hold no other mutable state than the point reference (VerifyingKey.precompute replaces it by a point of equal view: C19 obligation)",
+                  "signing / verifying / serialising reach shared points only through the methods covered here (C01-C05, C09 contracts are view-only)",
+                  "no schedule is enumerated and nothing is executed concurrently: violations have no failing input to replay",
+                  "field axioms / group-level abstraction as in C06 / C07 (finding F6 inherited)"],
+    explanation="the sequential contracts of every PointJacobi method that touches mutable state are re-verified from the real AST in interference mode: before each load of __coords / __precompute of a shared point the environment may rescale the triple or publish the table (rely), every own store must be a whole same-view reduced triple or a complete table (guarantee), published lists must not be mutated, and each postcondition (results are functions of views; no exception) must still hold on every path",
+)
